@@ -49,6 +49,7 @@ Inductive cop :=
 Record wcase := mkW {
   w_id : N;
   w_max : Z;
+  w_namelen : Z;                     (* bytes of the base name of the log file *)
   w_sec0 : N;                        (* second observed around OpenRotateFile *)
   w_init : rle;                      (* what was at <path> before *)
   w_ops : list cop;
@@ -64,6 +65,7 @@ Record wcase := mkW {
 Record ccase := mkC {
   c_id : N;
   c_max : Z;
+  c_namelen : Z;                     (* bytes of the base name of the log file *)
   c_openable : bool;                 (* can the destination be created at all *)
   c_sec0 : N;
   c_init : rle;
@@ -81,7 +83,8 @@ Record ccase := mkC {
   c_cur : rle;
   c_rot : list (N * N * rle);
   c_moved : list rle;
-  c_gone : list rle
+  c_gone : list rle;
+  c_errs : N                         (* "Failed to copy data to File" lines the writer logged for this path *)
 }.
 
 Inductive case := CW (c : wcase) | CC (c : ccase).
@@ -182,7 +185,7 @@ Definition to_op (o : cop) : op :=
   end.
 
 Definition w_model (c : wcase) : option (rf * list (option Z)) :=
-  run (rf_open (w_max c) (w_sec0 c) (unrle (w_init c))) [] (map to_op (w_ops c)).
+  run (rf_open_env (w_namelen c) (w_max c) (w_sec0 c) (unrle (w_init c))) [] (map to_op (w_ops c)).
 
 Definition unrot (l : list (N * N * rle)) : list (rname * bytes) := map (fun e => (fst e, unrle (snd e))) l.
 
@@ -232,14 +235,60 @@ Definition w_class (c : wcase) : bool * bool :=
   | None => (false, false)
   end.
 
+(* rotated names can always be created (see Model.can_rotate): then no Write may fail while the
+   destination is reachable.  With a longer name a rotation can be impossible: Writes may then
+   return an error - which is the only way in which lines may be missing *)
+Definition strict_name (n : Z) : bool := n <=? 200.
+
+(* lines of the writes issued while reachable, split by what the implementation returned *)
+Fixpoint split_writes (d : bool) (ops : list cop) (rs : list (Z * bool)) : bytes * list bytes :=
+  match ops with
+  | [] => ([], [])
+  | CWrite _ p :: ops' =>
+      match rs with
+      | r :: rs' =>
+          let '(ok, failed) := split_writes d ops' rs' in
+          if negb d then (ok, failed)
+          else if snd r then (unrle p ++ ok, failed) else (ok, lines_of (unrle p) ++ failed)
+      | [] => ([], [])
+      end
+  | CDirAway :: ops' => split_writes false ops' rs
+  | CDirBack :: ops' => split_writes true ops' rs
+  | _ :: ops' => split_writes d ops' rs
+  end.
+
+(* every successful Write reported len p *)
+Fixpoint counts_ok (ops : list cop) (rs : list (Z * bool)) : bool :=
+  match ops with
+  | [] => true
+  | CWrite _ p :: ops' =>
+      match rs with
+      | r :: rs' => (if snd r then fst r =? zlen (unrle p) else true) && counts_ok ops' rs'
+      | [] => false
+      end
+  | _ :: ops' => counts_ok ops' rs
+  end.
+
 Definition w_sig (c : wcase) : N :=
   let init := unrle (w_init c) in
   let files := map unrle (w_gone c) ++ map unrle (w_moved c) ++ map snd (unrot (w_rot c)) ++ [unrle (w_cur c)] in
-  (* the property: what was handed over while the destination was reachable *)
-  let sent := lines_of (init ++ accepted true (map to_op (w_ops c))) in
-  if negb (rets_ok true (w_ops c) (w_rets c)) then SIG_WRITE_ERR
-  else if negb (size_ok (w_max c) init files) then SIG_SIZE
-  else let '(d, s) := w_class c in lines_sig sent files d s.
+  if strict_name (w_namelen c) then
+    (* the property: what was handed over while the destination was reachable *)
+    let sent := lines_of (init ++ accepted true (map to_op (w_ops c))) in
+    if negb (rets_ok true (w_ops c) (w_rets c)) then SIG_WRITE_ERR
+    else if negb (size_ok (w_max c) init files) then SIG_SIZE
+    else let '(d, s) := w_class c in lines_sig sent files d s
+  else
+    (* what returned nil is there; what is there beyond that comes from a Write that returned an error *)
+    let '(ok, failed) := split_writes true (w_ops c) (w_rets c) in
+    if negb (counts_ok (w_ops c) (w_rets c)) then SIG_WRITE_ERR
+    else if negb (size_ok (w_max c) init files) then SIG_SIZE
+    else
+      let '(missing, extra) := mdiff (lines_of (init ++ ok)) (flat_map lines_of files) in
+      match missing with
+      | [] => match fst (mdiff extra failed) with [] => 0%N | _ => SIG_LOST end
+      | _ => SIG_LOST
+      end.
 
 (* ---- CC ---- *)
 Definition fault_of (n : N) : option fault :=
@@ -257,7 +306,7 @@ Definition c_events (c : ccase) : list wev :=
 
 (* None = no channel; Some None = the writer failed; Some (Some w) = final state *)
 Definition c_model (c : ccase) : option (option wl) :=
-  match wl_new (c_max c) (c_openable c) (c_sec0 c) (unrle (c_init c)) with
+  match wl_new_env (c_namelen c) (c_max c) (c_openable c) (c_sec0 c) (unrle (c_init c)) with
   | None => None
   | Some w => Some (wl_run w (c_events c))
   end.
@@ -280,7 +329,8 @@ Definition c_class (c : ccase) : bool * bool :=
   | _ => (false, false)
   end.
 
-Definition c_should_open (c : ccase) : bool := c_openable c && (1024 <=? c_max c).
+Definition c_should_open (c : ccase) : bool :=
+  c_openable c && (1024 <=? c_max c) && negb (open_fails (c_namelen c) (c_max c) (c_sec0 c) (unrle (c_init c))).
 
 Definition c_sig (c : ccase) : N :=
   if negb (c_new_ok c) then (if c_should_open c then SIG_NEW_REFUSED else 0%N)
@@ -291,7 +341,15 @@ Definition c_sig (c : ccase) : N :=
     (* the property: every encodable event sent while the destination was reachable *)
     let sent := lines_of (init ++ wl_accepted true (c_events c)) in
     if negb (size_ok (c_max c) init files) then SIG_SIZE
-    else let '(d, s) := c_class c in lines_sig sent files d s.
+    else if strict_name (c_namelen c) then let '(d, s) := c_class c in lines_sig sent files d s
+    else
+      (* a rotation may be impossible: lines may be missing only if the writer reported errors,
+         nothing may be invented, cut or duplicated *)
+      let '(missing, extra) := mdiff sent (flat_map lines_of files) in
+      match extra with
+      | [] => match missing with [] => 0%N | _ => if (c_errs c =? 0)%N then SIG_LOST else 0%N end
+      | _ => SIG_LOST
+      end.
 
 (* ---- exported ---- *)
 Definition mismatches (cs : list case) : list N :=
